@@ -229,14 +229,19 @@ def ref_count_overflow {ρ} (_r : Handle) : M ρ Unit := alarm .rcOverflow
 /-- `self.0 as *const u8` of a heap or static `self`, and a slice / `str` built from it -/
 structure RawPtr where
   h : Handle
+  own : Bool        -- `self as *const _ as *const u8`: the 16 bytes of the value itself, not what its first word points at
 structure RawSlice where
   b : Bytes
-def Repr.field_0 {ρ} : M ρ RawPtr := fun s => .next ⟨s.self⟩ s
+def Repr.field_0 {ρ} : M ρ RawPtr := fun s => .next ⟨s.self, false⟩ s
+/-- `self as *const _` / `self as *mut _` -/
+def Repr.self_ptr {ρ} : M ρ RawPtr := fun s => .next ⟨s.self, true⟩ s
 def slice.from_raw_parts {ρ} (p : RawPtr) (n : Nat) : M ρ RawSlice := fun s =>
-  match p.h with
-  | .heap a _ => (match textOf s.hp s.st (.heap a n) with | .ok t => .next ⟨t⟩ s | .error u => .ub u)
-  | .stat i _ => (match textOf s.hp s.st (.stat i n) with | .ok t => .next ⟨t⟩ s | .error u => .ub u)
-  | .inl _ => .ub .oob
+  match p.own, p.h with
+  | false, .heap a _ => (match textOf s.hp s.st (.heap a n) with | .ok t => .next ⟨t⟩ s | .error u => .ub u)
+  | false, .stat i _ => (match textOf s.hp s.st (.stat i n) with | .ok t => .next ⟨t⟩ s | .error u => .ub u)
+  | false, .inl _ => .ub .oob           -- the first word of an inline value is text, not a pointer
+  | true, .inl raw => if n ≤ raw.length then .next ⟨raw.take n⟩ s else .ub .oob
+  | true, _ => .ub .oob                 -- the pointer bits of a heap / static value are not text
 def str.from_utf8_unchecked {ρ} (sl : RawSlice) : M ρ Str := pure ⟨sl.b⟩
 
 /-! ## `&HeapBuffer` methods: they read the block `self` points at -/
@@ -398,7 +403,8 @@ def Chr.rs_len_utf8 {ρ} (c : Chr) : M ρ Nat := pure c.w
 /-- `[x; n]`, the scratch buffer handed to `encode_utf8` -/
 structure ArrayBuf where
   n : Nat
-def array_repeat {ρ} (_x n : Nat) : M ρ ArrayBuf := pure ⟨n⟩
+  b : Bytes
+def array_repeat {ρ} (x n : Nat) : M ρ ArrayBuf := pure ⟨n, List.replicate n (UInt8.ofNat x)⟩
 /-- `ch.encode_utf8(&mut buf)`: the bytes of the character, as a `&str` (the buffer must hold them) -/
 def Chr.rs_encode_utf8 {ρ} (c : Chr) (buf : ArrayBuf) : M ρ Str := fun s =>
   if c.b.length ≤ buf.n then .next ⟨c.b⟩ s else .ub .oob
@@ -666,6 +672,92 @@ def HeapBuffer.header {ρ} : M ρ HeaderRef := onHeap fun s _ _ _ => .next .mk s
 def HeaderRef.rs_get_capacity {ρ} (_ : HeaderRef) : M ρ CapV := onHeap fun s _ _ b => .next ⟨b.cap⟩ s
 def HeaderRef.rs_get_count {ρ} (_ : HeaderRef) : M ρ RcRef := onHeap fun s _ _ _ => .next .mk s
 def RcRef.rs_load {ρ} (_ : RcRef) (_o : Ord) : M ρ Nat := onHeap fun s _ _ b => .next b.rc s
+
+/-! ## Byte level: `inline_buffer.rs`, `static_buffer.rs`, and `Repr::len` / `as_bytes` / `as_slice_mut`
+
+A local `[u8; N]` is a value (`ArrayBuf`); `buffer[i] = v` rebinds it (out of range: the index panic);
+`ptr::copy_nonoverlapping(src, buffer.as_mut_ptr(), n)` rebinds it too.  The second machine word of a `Repr` is read as
+its eight little-endian bytes: of an inline value the raw bytes 8..16, of a heap / static value the length word with
+its marker on top. -/
+
+def LastByte.MASK_1100_0000 : Nat := Gen.mask1100
+def LastByte.Length00 : Nat := Gen.inlineEmptyTag
+def StaticBuffer.MAX_LENGTH : Nat := STATIC_MAX_LEN
+def StaticBuffer.TAG : Nat := Gen.staticTag
+
+def ArrayBuf.rs_index_set {ρ} (a : ArrayBuf) (i v : Nat) : M ρ ArrayBuf := fun s =>
+  if v ≥ 256 then .ub .arith
+  else if i < a.b.length then .next ⟨a.n, a.b.set i (UInt8.ofNat v)⟩ s else .pidx s
+/-- `ptr::copy_nonoverlapping(src, buffer.as_mut_ptr(), n)` into a local array -/
+def ptr.copy_nonoverlapping_local {ρ} (src : ConstPtr) (dst : ArrayBuf) (n : Nat) : M ρ ArrayBuf := fun s =>
+  if n ≤ src.b.length ∧ n ≤ dst.b.length then .next ⟨dst.n, src.b.take n ++ dst.b.drop n⟩ s else .ub .oob
+/-- the tuple-struct constructor `InlineBuffer(buffer)` -/
+def InlineBuffer {ρ} (a : ArrayBuf) : M ρ InlineBuf := fun s => if a.b.length = MAX_INLINE then .next ⟨a.b⟩ s else .ub .oob
+/-- `self.0[i] = v` of an `&mut InlineBuffer` -/
+def InlineBuffer.set_byte {ρ} (i v : Nat) : M ρ Unit := fun s =>
+  match s.self with
+  | .inl raw => if v ≥ 256 then .ub .arith
+                else if i < raw.length then .next () { s with self := .inl (raw.set i (UInt8.ofNat v)) } else .pidx s
+  | _ => .ub .oob
+def _root_.Nat.rs_wrapping_sub {ρ} (a b : Nat) : M ρ Nat := pure (wrappingSub a b)
+
+/-- `&'static str` as a pointer, and `StaticBuffer { ptr, len }` (the handle-local length is the word without its marker) -/
+structure StaticPtr where
+  sid : Nat
+def SStr.rs_as_ptr {ρ} (t : SStr) : M ρ StaticPtr := pure ⟨t.sid⟩
+def ptr.NonNull.new_unchecked {ρ} (p : StaticPtr) : M ρ StaticPtr := pure p
+def StaticBuffer.mk {ρ} (p : StaticPtr) (len : Nat) : M ρ StaticBuf := pure ⟨p.sid, len ^^^ Gen.staticTag⟩
+def StaticBuffer.get_len {ρ} : M ρ Nat := fun s => match s.self with | .stat _ l => .next (l ||| Gen.staticTag) s | _ => .ub .oob
+def StaticBuffer.set_len {ρ} (w : Nat) : M ρ Unit := fun s =>
+  match s.self with | .stat i _ => .next () { s with self := .stat i (w ^^^ Gen.staticTag) } | _ => .ub .oob
+
+/-- eight little-endian bytes of a word -/
+def leBytes8 (w : Nat) : Bytes :=
+  [UInt8.ofNat (w % 256), UInt8.ofNat (w / 256 % 256), UInt8.ofNat (w / 256 ^ 2 % 256), UInt8.ofNat (w / 256 ^ 3 % 256),
+   UInt8.ofNat (w / 256 ^ 4 % 256), UInt8.ofNat (w / 256 ^ 5 % 256), UInt8.ofNat (w / 256 ^ 6 % 256), UInt8.ofNat (w / 256 ^ 7 % 256)]
+def fromLe8 : Bytes → Option Nat
+  | [b0, b1, b2, b3, b4, b5, b6, b7] =>
+    some (b0.toNat + 256 * b1.toNat + 256 ^ 2 * b2.toNat + 256 ^ 3 * b3.toNat + 256 ^ 4 * b4.toNat + 256 ^ 5 * b5.toNat
+          + 256 ^ 6 * b6.toNat + 256 ^ 7 * b7.toNat)
+  | _ => none
+def _root_.Nat.rs_to_ne_bytes {ρ} (w : Nat) : M ρ ArrayBuf := pure ⟨8, leBytes8 w⟩      -- x86-64: native = little endian
+def usize.from_le_bytes {ρ} (a : ArrayBuf) : M ρ Nat := fun s => match fromLe8 a.b with | some w => .next w s | none => .ub .oob
+def usize.from_ne_bytes {ρ} (a : ArrayBuf) : M ρ Nat := usize.from_le_bytes a
+
+/-- the machine words of a `Repr` seen through `self as *const _ as *const usize` -/
+structure WordPtr where
+  h : Handle
+  idx : Nat
+def RawPtr.rs_cast_usize {ρ} (p : RawPtr) : M ρ WordPtr := fun s => if p.own then .next ⟨p.h, 0⟩ s else .ub .oob
+def WordPtr.rs_add {ρ} (p : WordPtr) (n : Nat) : M ρ WordPtr := fun s => if p.idx + n ≤ 2 then .next ⟨p.h, p.idx + n⟩ s else .ub .oob
+/-- `*(tail as *const [u8; 8])`: only the second word is readable as data for every kind -/
+def WordPtr.rs_cast_bytes8 {ρ} (p : WordPtr) : M ρ ArrayBuf := fun s =>
+  match p.idx, p.h with
+  | 1, .inl raw => if raw.length = MAX_INLINE then .next ⟨8, raw.drop 8⟩ s else .ub .oob
+  | 1, .heap _ l => .next ⟨8, leBytes8 (l ||| Gen.heapTag)⟩ s
+  | 1, .stat _ l => .next ⟨8, leBytes8 (l ||| Gen.staticTag)⟩ s
+  | 0, .inl raw => if raw.length = MAX_INLINE then .next ⟨8, raw.take 8⟩ s else .ub .oob
+  | _, _ => .ub .oob
+
+/-- `self.2 as u8`: the `LastByte` field -/
+def Repr.field_2 {ρ} : M ρ Nat := Repr.last_byte
+/-- `self.as_bytes()` -/
+def Repr.as_bytes {ρ} : M ρ RawSlice := fun s =>
+  match textOf s.hp s.st s.self with
+  | .ok t => .next ⟨t⟩ s
+  | .error u => .ub u
+/-- `slice::from_raw_parts_mut(ptr, cap)` over the storage `self` owns -/
+def slice.from_raw_parts_mut {ρ} (p : RawPtr) (cap : Nat) : M ρ SliceMut := fun s =>
+  match p.own, p.h with
+  | true, .inl raw => if cap ≤ raw.length then .next ⟨0, cap⟩ s else .ub .oob
+  | false, .heap a _ => (match s.hp.get? a with | some b => if cap ≤ b.cap then .next ⟨0, cap⟩ s else .ub .oob | none => .ub .useAfterFree)
+  | true, .stat _ _ => .ub .writeStatic        -- a static value taken for an inline one
+  | _, _ => .ub .oob
+def SliceMut.rs_get_unchecked_mut_to {ρ} (sl : SliceMut) (r : Nat) : M ρ SliceMut := fun s =>
+  if r ≤ sl.len then .next ⟨sl.off, r⟩ s else .ub .oob
+def str.from_utf8_unchecked_mut {ρ} (sl : SliceMut) : M ρ SliceMut := pure sl
+/-- a string literal of the source, as its bytes -/
+def Str.lit (b : Bytes) : Str := ⟨b⟩
 
 /-! ## Constants the source names -/
 
